@@ -507,6 +507,9 @@ def _read_healsparse_fits_file_and_degrade(filename, pixels, nside_out, reductio
                 dtype_out = np.dtype(np.float64)
             else:
                 dtype_out = dtype
+            if use_weightfile:
+                # The weighted mean has the type of map*weights, as in degrade.
+                dtype_out = np.result_type(dtype_out, np.dtype(dtype_weight))
             sentinel_out = hpg.UNSEEN
             sparse_map_out = np.full((_pixels.size + 1)*nfine_per_cov_out,
                                      sentinel_out,
